@@ -77,6 +77,7 @@ fn end_to_end(full: &FullRun, n: u32) -> CheckResult {
 }
 
 fn run(tier: Tier) -> i32 {
+    start_watchdog("C16", tier);
     let mut ctx = Ctx::new("C16", tier);
     ctx.rule = "worker counts n: every n in 1..=N (quick N = 32,768, thorough 262,144) plus proptest n up to 2^27 (including the neighbourhood of 2^24, where f32 stops representing n exactly), calculate_scopes compiled from the example's own scope.rs; oracle: n scopes, first starts at (0,1), last ends at (48,49), each starts where the previous ended, from <= to, every endpoint a valid position (turn < river <= 48 or (48,49)). End to end for every n <= 1,024 (thorough 4,096) and sampled larger n: the scopes are given to real evaluators over two fixed configurations exactly as the example does and the concatenated showdowns must equal the unscoped run. Non-trivial = n >= 2; distinct = distinct n.".into();
     ctx.assumptions = vec!["end-to-end uses two fixed cheap configurations; the structural conditions are checked for every n".into()];
